@@ -430,6 +430,40 @@ CONFIRMED_THRESHOLDS = {
 }
 
 
+def threshold_formula_problem(ix, rel, f):
+    """For the inline asymptotic series of mpf_ci_si the switch-over is the expression assigned to `asymptotic`
+    (in mag = exp + bc of x and the working precision wp).  The series n!/x^n reaches a term below 2^-wp only if
+    x > wp*ln 2; since |x| >= 2^(mag-1), the expression is evaluated from the source on a grid of (mag, wp) and must
+    imply 2^(mag-1) >= wp*ln 2.  (Other confirmed loops are helpers whose callers T-R8 checks.)"""
+    import math
+    from ..formula import Evaluator
+    if f.qualname != 'mpf_ci_si':
+        return None
+    asg = [x for x in _walk_own(f.node) if isinstance(x, ast.Assign) and norm(x.targets[0]) == 'asymptotic']
+    if len(asg) != 1:
+        raise AnalysisError('mpf_ci_si: switch-over expression not found')
+    ev = Evaluator()
+
+    class Ev(Evaluator):
+        def ev(self, e, env):
+            if isinstance(e, ast.Call) and norm(e.func) == 'bitcount':
+                return int(self.ev(e.args[0], env)).bit_length()
+            return Evaluator.ev(self, e, env)
+    for wp in list(range(8, 200)) + [256, 333, 511, 512, 513, 1000, 1023, 1024, 1025, 4000, 10 ** 5]:
+        for mag in range(0, 24):
+            try:
+                t = Ev().ev(asg[0].value, {'mag': mag, 'wp': wp})
+            except AnalysisError as e:
+                raise AnalysisError('mpf_ci_si: switch-over expression: %s' % e)
+            if t and not (2.0 ** (mag - 1) >= wp * math.log(2)):
+                return (norm(asg[0]),
+                        'the asymptotic series is chosen for mag = %d at wp = %d, i.e. for |x| as small as %g, but its '
+                        'smallest term e^-x only drops below 2^-wp for x > wp*ln2 = %.1f: in between the loop `while t` '
+                        'never reaches 0 (si / ci run for ever)' % (mag, wp, 2.0 ** (mag - 1), wp * math.log(2)),
+                        asg[0].lineno)
+    return None
+
+
 def check_divergence_exits(run, ix):
     """T-R9.  A fixed-point series loop that ends only when a term is exactly 0 (`while t:`) terminates if the
     terms shrink to 0.  When the term update MULTIPLIES by the loop counter (polynomial degree > 0 in a variable
@@ -496,7 +530,11 @@ def check_divergence_exits(run, ix):
                 if exit_ok:
                     run.ok('T-R9', '%s: `%s` (degree %d in %s) has a divergence exit' % (f.qualname, norm(x, 50), d, c))
                 elif key in CONFIRMED_THRESHOLDS:
-                    run.ok('T-R9', '%s: threshold confirmed: %s' % (f.qualname, CONFIRMED_THRESHOLDS[key][:70]))
+                    why = threshold_formula_problem(ix, rel, f)
+                    if why:
+                        run.fail(Finding('T-R9', rel, f.qualname, why[0], why[1], line=why[2]))
+                    else:
+                        run.ok('T-R9', '%s: threshold confirmed: %s' % (f.qualname, CONFIRMED_THRESHOLDS[key][:70]))
                 else:
                     run.fail(Finding('T-R9', rel, f.qualname, norm(x),
                                      'the loop ends only when this term is exactly 0, but the term is multiplied by the '
